@@ -3,6 +3,14 @@ import SarpyModel.Spec.Codec
 namespace Sarpy.Drivers
 open Sarpy.Spec.Codec
 
+/-- round half to even at Float (`Float.round` rounds ties away from zero): `x - floor x` is exact in binary64 -/
+def rintF (x : Float) : Float :=
+  let f := Float.floor x
+  let d := x - f
+  if d < 0.5 then f
+  else if 0.5 < d then f + 1.0
+  else if Float.floor (f / 2.0) * 2.0 == f then f else f + 1.0
+
 def floatOps : Ops Float where
   add := (· + ·)
   sub := (· - ·)
@@ -15,6 +23,8 @@ def floatOps : Ops Float where
   pi := 3.141592653589793
   ofNat := fun n => n.toFloat
   lt := fun a b => a < b
+  rint := rintF
+  floor := Float.floor
 
 def codecBits (f : Float) : String := toString f.toBits
 def codecParse (s : String) : Option Float := s.toNat?.map (fun n => Float.ofBits n.toUInt64)
@@ -30,6 +40,23 @@ def codecStep (toks : List String) : Option String :=
     let bits ← bits.toNat?; let x ← codecParse x; let y ← codecParse y
     let r := encodeMP floatOps bits x y
     pure s!"{codecBits r.1} {codecBits r.2}"
+  | ["encq", bits, x, y] => do
+    -- quantised encoder; also returns the un-rounded pair so that the harness can recognise near-ties
+    let bits ← bits.toNat?; let x ← codecParse x; let y ← codecParse y
+    let q := encodeMPq floatOps bits x y
+    let r := encodeMP floatOps bits x y
+    pure s!"{codecBits q.1} {codecBits q.2} {codecBits r.1} {codecBits r.2}"
+  | ["ampq", sf, x, y] => do
+    let sf ← codecParse sf; let x ← codecParse x; let y ← codecParse y
+    let q := encodeAmpSF floatOps sf (x, y)
+    let inv := floatOps.div (floatOps.ofNat 1) sf
+    pure s!"{codecBits q.1} {codecBits q.2} {codecBits (inv * x)} {codecBits (inv * y)}"
+  | ["trunc", x] => do
+    let x ← codecParse x
+    pure (codecBits (truncZero floatOps x))
+  | ["rint", x] => do
+    let x ← codecParse x
+    pure (codecBits (rintF x))
   | ["nearest", table, x] => do
     let t ← (table.splitOn ",").mapM codecParse
     let x ← codecParse x
